@@ -33,6 +33,8 @@ pub fn build(property: &str, tier: &str) -> Option<PropRun> {
         "C13" => Some(c13(quick)),
         "C20" => Some(c20(quick)),
         "C16" => Some(crate::c16::build(quick)),
+        "C11" => Some(c11(quick)),
+        "C03" => Some(crate::c03::build(quick)),
         "C14" => Some(crate::c14::build(quick)),
         "C04" => Some(crate::c04::build(quick)),
         "C19" => Some(crate::c19::build(quick)),
@@ -49,7 +51,7 @@ pub fn build(property: &str, tier: &str) -> Option<PropRun> {
 }
 
 fn spec(tag: &str, cfg: &LwCfg, script: &Arc<ScriptInfo>, env: LwEnv, d: usize, oracles: u32) -> Scenario {
-    lw_scenario(LwSpec { tag: tag.to_string(), cfg: cfg.clone(), script: script.clone(), env, d, oracles })
+    lw_scenario(LwSpec { tag: tag.to_string(), cfg: cfg.clone(), script: script.clone(), env, d, oracles, probe_round: 0 })
 }
 
 fn scripts_upto(n_max: usize, chans: &[u8], modes: &[SendMode], sizes: &[usize], spreads: &[usize]) -> Vec<Arc<ScriptInfo>> {
@@ -112,7 +114,7 @@ pub const T_LIVE_ROUNDS: usize = 15_000;
 fn env_live(dev_rounds: usize) -> LwEnv {
     // fair phase: constant 20 ms cadence up to T_live = 300 s of virtual time (executions stop as soon as both sides are idle)
     LwEnv { fates: FATES_BASIC_PLUS, deltas: &[20, 0, 2000, 10_000], dev_rounds, dev_start: 0, max_rounds: dev_rounds + T_LIVE_ROUNDS, skip_choice: false, flush_choice: false,
-            blackouts: &[], stop_when_idle: true, fair_delta: 20, slow_after: usize::MAX, slow_delta: 250, fuel: 2_000_000 }
+            blackouts: &[], stop_when_idle: true, fair_delta: 20, slow_after: usize::MAX, slow_delta: 250, fuel: 2_000_000, shifts: &[] }
 }
 
 fn mixed_scripts() -> Vec<(&'static str, Vec<Op>)> {
@@ -164,7 +166,7 @@ fn c05(quick: bool) -> PropRun {
     let scripts = scripts_upto(n, &[0, 1], &MODES, sizes, &[0]);
     let ideal = |lat: usize, dev: usize| -> (LwEnv, usize) {
         (LwEnv { fates: FATES_NONE, deltas: &[20, 0, 1, 150, 2000], dev_rounds: dev, dev_start: 0, max_rounds: dev + T_LIVE_ROUNDS, skip_choice: true, flush_choice: true, blackouts: &[],
-                 stop_when_idle: true, fair_delta: 20, slow_after: usize::MAX, slow_delta: 250, fuel: 2_000_000 }, lat)
+                 stop_when_idle: true, fair_delta: 20, slow_after: usize::MAX, slow_delta: 250, fuel: 2_000_000, shifts: &[] }, lat)
     };
     for (ci, cfg0) in grid.iter().enumerate() {
         for lat in [1usize, 3] {
@@ -256,7 +258,7 @@ fn c13(quick: bool) -> PropRun {
             let cfg = LwCfg { pwin: 4096, fwin: 4096, bw: [bw, bw], ..LwCfg::small() };
             let dev = if quick { 6 } else { 10 };
             let env = LwEnv { fates: &[Fate::Deliver, Fate::Drop, Fate::Delay3], deltas: &[20, 0, 1, 1000, 60_000], dev_rounds: dev, dev_start: 0, max_rounds: dev + 150, skip_choice: false, flush_choice: true,
-                              blackouts: &[], stop_when_idle: false, fair_delta: 20, slow_after: usize::MAX, slow_delta: 250, fuel: 2_000_000 };
+                              blackouts: &[], stop_when_idle: false, fair_delta: 20, slow_after: usize::MAX, slow_delta: 250, fuel: 2_000_000, shifts: &[] };
             scs.push(spec(&format!("C13.{}", name), &cfg, &si, env, d, oracles));
         }
     }
@@ -296,3 +298,41 @@ fn c20(quick: bool) -> PropRun {
         json!({"d": d}),
         A_LW) }
 }
+
+// ------------------------------------------------------------------------------------------------
+fn c11(quick: bool) -> PropRun {
+    let mut scs = Vec::new();
+    use SendMode::*;
+    let dev = if quick { 8 } else { 14 };
+    let probe_round = dev + 3000 + 60;
+    let probes = |v: &mut Vec<Op>| {
+        v.push(send(probe_round, 0, 10, Unreliable, 50)); v.push(send(probe_round, 0, 11, Persistent, 2000)); v.push(send(probe_round, 0, 12, Reliable, 60)); v.push(send(probe_round, 0, 13, TimeSensitive, 70));
+        v.push(send(probe_round + 5, 0, 12, Reliable, 1400)); v.push(send(probe_round + 5, 1, 12, Reliable, 1400)); v.push(send(probe_round + 6, 0, 10, Unreliable, 51));
+    };
+    let fills: Vec<(&str, Vec<Op>, LwCfg)> = vec![
+        ("window-fill-small", (0..12).map(|i| send(i / 6, 0, (i % 3) as u8, MODES[i % 4], 40 + i)).collect(), LwCfg { pwin: 4, fwin: 4, ..LwCfg::small() }),
+        ("window-fill-frames", (0..10).map(|i| send(i / 5, 0, (i % 2) as u8, if i % 2 == 0 { Reliable } else { Persistent }, 1400)).collect(), LwCfg { pwin: 8, fwin: 4, ..LwCfg::small() }),
+        ("alloc-exhausted", (0..5).map(|i| send(0, 0, 0, if i % 2 == 0 { Reliable } else { Unreliable }, 2000 + i)).collect(), LwCfg { pwin: 8, fwin: 8, rx_alloc: [30_000, 3 * FRAG], ..LwCfg::small() }),
+        ("default-windows-stream", (0..16).map(|i| send(i / 2, i % 2, (i % 3) as u8, MODES[i % 4], 700 + 100 * i)).collect(), LwCfg { pwin: 4096, fwin: 4096, ..LwCfg::small() }),
+        ("idle-before-fault", vec![send(0, 0, 0, Reliable, 20)], LwCfg { pwin: 4, fwin: 8, ..LwCfg::small() }),
+    ];
+    for (name, mut ops, cfg) in fills {
+        probes(&mut ops);
+        let si = Arc::new(ScriptInfo::new(ops));
+        for cadence in [20u64, 100] {
+            if quick && cadence == 100 && name != "window-fill-small" { continue; }
+            let env = LwEnv { fates: &[Fate::Deliver, Fate::Drop], deltas: leak(&[cadence, 2000, 10_000]), dev_rounds: dev, dev_start: 0, max_rounds: probe_round + T_LIVE_ROUNDS, skip_choice: false, flush_choice: false,
+                              blackouts: &[(3, 5), (1, 100), (2, 100), (3, 100), (1, 500), (2, 500), (3, 500), (1, 3000), (2, 3000), (3, 3000)], stop_when_idle: true, fair_delta: cadence, slow_after: usize::MAX, slow_delta: 250, fuel: 4_000_000,
+                              shifts: &[Shift::Latency(10), Shift::Latency(25), Shift::Cadence(200), Shift::Cadence(1000)] };
+            let mut sp = LwSpec { tag: format!("C11.{}", name), cfg: cfg.clone(), script: si.clone(), env, d: if quick { 1 } else { 2 }, oracles: O_C11 | O_C01, probe_round };
+            if quick { sp.env.fates = FATES_NONE; sp.env.deltas = leak(&[cadence, 10_000]); }
+            scs.push(lw_scenario(sp));
+        }
+    }
+    PropRun { level: "model_checking", scenarios: scs, units: vec![], replay_case: None, summary: lw_summary(
+        "fault phase (one or two deviations: a blackout of 5/100/500/3000 rounds in one or both directions starting at any round of the window, a lasting change of latency x10/x25 or of the step cadence x10/x50, single losses, pauses of 2 and 10 s) followed by a fair network; probe packets of every mode (50 B to 2 kB, both directions) submitted after the longest fault must all be delivered, earlier Reliable packets too, within T_live = 300 s of steps (fixed a priori); data still pending at the horizon must at least have made progress since the probes were submitted",
+        json!({"d": if quick { 1 } else { 2 }, "blackout_rounds": [5, 100, 500, 3000], "directions": ["a->b", "b->a", "both"], "shifts": ["latency 1->10 rounds", "latency 1->25 rounds", "cadence ->200 ms", "cadence ->1000 ms"], "fills": ["packet window 4 filled 3x", "frame window 4 filled", "receive allocation of 3 fragments exhausted", "default 4096 windows, both directions", "idle"], "probe_round": probe_round, "T_live_rounds": T_LIVE_ROUNDS}),
+        &[A_LW[0], A_LW[1], A_LW[3], "bounded liveness: recovery slower than T_live after the probes is reported, recovery inside it is not distinguished from immediate recovery"]) }
+}
+
+fn leak(v: &[u64]) -> &'static [u64] { Box::leak(v.to_vec().into_boxed_slice()) }
